@@ -90,7 +90,25 @@ for _field in _settings:
     else:
         _cli_ensures.append(("C19.cli.untouched.%s" % _field, "local('config').%s == call_result('_load_config').%s" % (_field, _field), "C19"))
 
-fn("hypercorn.__main__:_load_config", params={"config_path": "opt str"}, returns="fullconfig", modifies=[], effect="atomic", assume_only=False, props=("C19",))
+# the three file loaders as seen by _load_config (their bodies -- importlib, exec of a file, tomllib,
+# then one setattr loop -- are not under contract); what is proved is that the route and the name
+# handed over are exactly what the -c value says
+for _ld in ("from_object", "from_pyfile", "from_toml"):
+    fn(CF + "." + _ld, params={"cls": "opaque", "arg": "str"}, returns="fullconfig", modifies=[], effect="atomic", assume_only=True,
+       trusted_reason="Config.%s: loader body not under contract" % _ld)
+# (no effect="atomic": units declared atomic are replayed natively, and running the real loaders on a
+# counter-model would import / execute whatever the model names)
+fn("hypercorn.__main__:_load_config", params={"config_path": "opt str"}, returns="fullconfig", modifies=[], assume_only=False,
+   ensures=[
+       ("C19.load.none", "implies(config_path is None, (count_calls('Config.from_object') + count_calls('Config.from_pyfile') + count_calls('Config.from_toml')) == 0)", "C19"),
+       ("C19.load.python", "implies(config_path is not None and config_path.startswith('python:'), (count_calls('Config.from_object') + count_calls('Config.from_pyfile') + count_calls('Config.from_toml')) == 1 and count_calls('Config.from_object') == 1 "
+        "and call_args('Config.from_object')[-1] == config_path[7:])", "C19"),
+       ("C19.load.file", "implies(config_path is not None and not config_path.startswith('python:') and config_path.startswith('file:'), (count_calls('Config.from_object') + count_calls('Config.from_pyfile') + count_calls('Config.from_toml')) == 1 and count_calls('Config.from_pyfile') == 1 "
+        "and call_args('Config.from_pyfile')[-1] == config_path[5:])", "C19"),
+       ("C19.load.toml", "implies(config_path is not None and not config_path.startswith('python:') and not config_path.startswith('file:'), (count_calls('Config.from_object') + count_calls('Config.from_pyfile') + count_calls('Config.from_toml')) == 1 and count_calls('Config.from_toml') == 1 "
+        "and call_args('Config.from_toml')[-1] == config_path)", "C19"),
+   ],
+   props=("C19",))
 
 if _CLI_OK:
   fn("hypercorn.__main__:main", params={"sys_args": "const None"},
